@@ -35,6 +35,14 @@ var (
 		"--no-ext-diff",
 		"--no-textconv",
 		"--color=never",
+		// The pointer diffs must be shown, and shown in the shape the
+		// parser expects, whatever the user's attributes ("binary",
+		// "-diff") and configuration (diff.noprefix, diff.mnemonicPrefix)
+		// say about the tracked files.
+		"--text",
+		"--src-prefix=a/",
+		"--dst-prefix=b/",
+		"--root", // log.showRoot=false must not hide what a root commit adds
 		"-G", "oid sha256:", // only diffs which include an lfs file SHA change
 		"-p",                             // include diff so we can read the SHA
 		"-U12",                           // Make sure diff context is always big enough to support 10 extension lines to get whole pointer
